@@ -96,7 +96,9 @@ type udpBatchReader struct {
 	// readFn is the netpoller callback, bound once so the poll loop does
 	// not allocate a closure per cycle. armed/received/rerr carry its
 	// arguments and results through the struct.
-	readFn   func(fd uintptr) bool
+	readFn func(fd uintptr) bool
+	// peekFn is the callback of awaitDatagram, bound once like readFn.
+	peekFn   func(fd uintptr) bool
 	armed    int
 	received int
 	rerr     error
@@ -127,6 +129,18 @@ func newUDPBatchReader(e *udpEngine, idx int, pc *net.UDPConn, rc syscall.RawCon
 		}
 		r.received, r.rerr = int(n), nil //nolint:gosec // G115 — the kernel returns at most vlen
 		return true
+	}
+	r.peekFn = func(fd uintptr) bool {
+		// One octet, left in the queue: only "is there a datagram" is asked.
+		_, _, errno := unix.Syscall6(
+			unix.SYS_RECVFROM,
+			fd,
+			uintptr(unsafe.Pointer(&r.scrap[0])), //nolint:gosec // scratch memory owned by this reader
+			1,
+			uintptr(unix.MSG_PEEK|unix.MSG_DONTWAIT),
+			0, 0,
+		)
+		return errno != unix.EAGAIN
 	}
 	return r
 }
@@ -176,10 +190,23 @@ func (r *udpBatchReader) run() {
 			held++
 		}
 		if held == 0 {
-			if !r.shed() {
+			// Wait for the next datagram without consuming it. The wait
+			// can outlast the overload by any amount of time; what ends
+			// it may be a lone query arriving with every slab free again,
+			// and that one is served, not shed.
+			if !r.awaitDatagram() {
 				return
 			}
-			continue
+			if j := e.take(r.idx); j != nil {
+				j.transition(udpJobFree, udpJobReading)
+				r.arm(j, 0)
+				held = 1
+			} else {
+				if !r.shed() {
+					return
+				}
+				continue
+			}
 		}
 
 		r.armed = held
@@ -232,6 +259,15 @@ func (r *udpBatchReader) run() {
 		}
 		held = m
 	}
+}
+
+// awaitDatagram parks the reader until the socket has something to read
+// and leaves it in the queue. It returns false when the socket is
+// finished. Any other condition is left for the read that follows to
+// report: that read consumes it, so the loop cannot spin on it here.
+func (r *udpBatchReader) awaitDatagram() bool {
+	err := r.rc.Read(r.peekFn)
+	return err == nil || !isAdmissionStopErr(err)
 }
 
 // shed drains a batch into scratch memory and counts what it dropped, so
